@@ -224,36 +224,47 @@ def coqchk(prop):
 
 # ------------------------------------------------------------------ sharded runs
 
+def _run_chunk(exe, chunk, env):
+    """run one process over a chunk; when it dies, note why and go on with the cases after the fatal one"""
+    res = []
+    rest = list(chunk)
+    guard = 0
+    while rest and guard < 50:
+        guard += 1
+        p = subprocess.Popen([exe], stdin=subprocess.PIPE, stdout=subprocess.PIPE, stderr=subprocess.PIPE,
+                             text=True, env=env, cwd='/', errors='replace')
+        o, e = p.communicate('\n'.join(rest) + '\n')
+        got = o.split('\n')
+        if got and got[-1] == '':
+            got.pop()
+        got = got[:len(rest)]
+        res.extend(got)
+        if len(got) >= len(rest):
+            break
+        why = 'alloc' if 'memory allocation of' in e or 'capacity overflow' in e else ('stack' if 'overflowed its stack' in e else 'other')
+        res.append('CRASH exit=%s why=%s %s' % (p.returncode, why, ' '.join(e.strip().split('\n')[:1])[:160]))
+        rest = rest[len(got) + 1:]
+    if len(res) < len(chunk):
+        res += ['NOT-RUN'] * (len(chunk) - len(res))
+    return res
+
+
 def _run_sharded(exe, lines, extra_env=None):
     if not lines:
         return []
     n = min(NPROC, max(1, len(lines) // 50))
     size = (len(lines) + n - 1) // n
-    procs = []
     env = dict(ENV)
     if extra_env:
         env.update(extra_env)
-    for i in range(n):
-        chunk = lines[i * size:(i + 1) * size]
-        p = subprocess.Popen([exe], stdin=subprocess.PIPE, stdout=subprocess.PIPE, stderr=subprocess.DEVNULL,
-                             text=True, env=env, cwd='/')
-        procs.append((p, chunk))
-    # feed all, then collect (threads avoid pipe deadlocks)
+    chunks = [lines[i * size:(i + 1) * size] for i in range(n)]
     import threading
-    outs = [None] * len(procs)
+    outs = [None] * len(chunks)
 
     def work(k):
-        p, chunk = procs[k]
-        o, _ = p.communicate('\n'.join(chunk) + '\n')
-        res = o.split('\n')
-        if res and res[-1] == '':
-            res.pop()
-        if len(res) < len(chunk):
-            # the process died (abort / stack overflow): mark the first unanswered case
-            res = res + ['CRASH exit=%s' % p.returncode] + ['NOT-RUN'] * (len(chunk) - len(res) - 1)
-        outs[k] = res[:len(chunk)]
+        outs[k] = _run_chunk(exe, chunks[k], env)
 
-    ths = [threading.Thread(target=work, args=(k,)) for k in range(len(procs))]
+    ths = [threading.Thread(target=work, args=(k,)) for k in range(len(chunks))]
     for t in ths:
         t.start()
     for t in ths:
